@@ -16,7 +16,7 @@ func (world) Level(string) string  { return "exploration" }
 func (world) Run(k *kernel.K)      { runPeerset(k) }
 func (world) Rule(p string) string { return ruleText }
 
-const ruleText = "one run = one real dot/peerset.PeerSet (single set) inside a synctest bubble, configured from the tape: 4-6 fixed ed25519 peer ids, maxIn/maxOut 0..3, reserved-only on/off, initial reserved peers and bootnodes. 10-60 tape-chosen operations (add/remove peer, add/remove/set reserved (single and multi-peer), report of 1-3 peers with values from +-1 to +-MaxInt32 and raw int32, incoming of 1-2 peers, disconnect (unknown/refused), allocSlots tick, bare updateTime, direct Reputation.add/sub/tick probes) are separated by virtual clock advances of 0 s, seconds (ban expiry lies at ~10 s), minutes and 1-2 h jumps. Quick tier calls the real PeerSet methods directly; thorough tier runs one third of the runs through the real Handler goroutine + ticker (public API, synctest.Wait as barrier). After EVERY operation the result messages are drained and the real state (per-peer membership state and reputation, numIn/numOut, latestTimeUpdate) is read through accessors and compared with the reference model: numIn<=maxIn, numOut<=maxOut; counters == connected non-reserved peers per direction (reserved flag from the model); no connected non-reserved peer below the ban threshold; every reputation equals saturating(decay^n(previous) + reported delta for EACH listed occurrence, -256 on disconnect) computed in int64; the last Connect/Accept/Drop message per peer agrees with its state transition. Peers are chosen by index into the fixed list, never from real state. Non-trivial = at least 6 operations including a report and a connection-changing operation, or a clock jump >= 1 h / saturating report; distinct = distinct event-kind sequence."
+const ruleText = "one run = one real dot/peerset.PeerSet (single set) inside a synctest bubble, configured from the tape: 4-6 fixed ed25519 peer ids, maxIn/maxOut 0..3, reserved-only on/off, initial reserved peers and bootnodes. 10-60 tape-chosen operations (add/remove peer, add/remove/set reserved (single and multi-peer), report of 1-3 peers with values from +-1 to +-MaxInt32 and raw int32, incoming of 1-2 peers, disconnect (unknown/refused), allocSlots tick, bare updateTime, direct Reputation.add/sub/tick probes) are separated by virtual clock advances of 0 s, seconds (ban expiry lies at ~10 s), minutes and 1-2 h jumps. Quick tier calls the real PeerSet methods directly; thorough tier runs one third of the runs through the real Handler goroutine + ticker (public API, synctest.Wait as barrier). After EVERY operation the result messages are drained and the real state (per-peer membership state and reputation, numIn/numOut, latestTimeUpdate) is read through accessors and compared with the reference model: numIn<=maxIn, numOut<=maxOut; counters == connected non-reserved peers per direction (reserved flag from the model); no connected non-reserved peer below the ban threshold; every reputation equals saturating(decay^n(previous) + reported delta for EACH listed occurrence, -256 on disconnect) computed in int64; the last Connect/Accept/Drop message per peer agrees with its state transition. Peers are chosen by index into the fixed list, never from real state. Non-trivial = at least 6 operations including a report and a connection-changing operation, or a clock jump >= 1 h / saturating report; distinct = distinct event-kind sequence. A fifth of the quick runs (a third of the thorough ones) go through the real handler goroutine with its ticker and action channel instead of calling the PeerSet methods directly."
 
 func (world) Components(string) ([]string, []string) {
 	return []string{
